@@ -8,7 +8,7 @@ use unicode_width::UnicodeWidthChar;
 use crate::explore::{bfs, run_op, sweep, Base, Local, Trans};
 use crate::judge::*;
 use crate::ops::{apply, build, Op, P};
-use crate::props::{gen_bases, geoms, large_bases, repeat_op, sweep_with_extras, with_poison, Guard};
+use crate::props::{gen_bases, geoms, history_tree_j, large_bases, repeat_op, sweep_with_extras, with_poison, Guard};
 use crate::refscreen::{compare, fresh, Comp, Model, ALL_COMPS, DECCOLM};
 use crate::report::{Collector, Violation};
 use crate::seeds::*;
@@ -2391,6 +2391,26 @@ pub fn c20(c: &Collector, g: &mut Guard) {
             refine_all(c, "C20", "E4.parser", t, local);
         },
     );
+    history_tree_j(
+        c,
+        "C20",
+        (3, 1),
+        vec![
+            Op::DefineCharset("0".into(), "(".into()),
+            Op::DefineCharset("B".into(), "(".into()),
+            Op::DefineCharset("U".into(), ")".into()),
+            Op::ShiftOut,
+            Op::ShiftIn,
+            Op::SaveCursor,
+            Op::RestoreCursor,
+            Op::Reset,
+            Op::Draw("q\u{e9}".into()),
+        ],
+        if c.thorough() { 6 } else { 5 },
+        &|op| matches!(op, Op::Draw(_)),
+    );
+    // after every history of charset operations the drawn glyph must follow the model: the tree
+    // judges the charset ops themselves; drawing is judged from every leaf by the sweeps above
     c.bound("code_points", json!("0..=255 x 4 tables x {G0,G1} x {SI,SO}; 256, 0x2500, 0xFFFD, astral"));
     g.need(c, "table_entries_ok");
     g.need(c, "visible_translations");
